@@ -8,7 +8,27 @@
    wf_prog = "parser shaped": a tree the parser can produce                            (Proof/FmtDefs.v)
    zsafe_prog = no `if` has a literal 0 adjacent to its comparison operator            (Model/FmtClass.v) *)
 From Coq Require Import List ZArith NArith String Bool.
-From SCC Require Import Lang.FunSyn Model.Printer Model.Parser Model.FmtClass Proof.FmtDefs Proof.FmtProof.
+From SCC Require Import Lang.FunSyn Model.Printer Model.Parser Model.FmtClass Proof.FmtDefs Proof.FmtLex Proof.FmtProof.
+
+(* Layout independence.  [renders d s]: s arises from the document d by writing every atom as its text,
+   every space / line / hardline as ANY non-empty string of blanks and every line_ as ANY string of
+   blanks, chosen independently at each occurrence (an over-approximation of the `pretty` crate: all
+   widths, all indentations, all group decisions).  Every such text of a printed parser-shaped
+   program lexes to one and the same token stream.  No guard: this also holds inside the defect class. *)
+Theorem C16_layout_independent :
+  forall c p s, wf_prog p = true -> renders (d_prog c p) s -> lex_string s = Some (tokens (d_prog c p)).
+Proof. exact layout_independent. Qed.
+Print Assumptions C16_layout_independent.
+
+(* Structure of the proof: a general lemma about safe documents, and the printer yields safe documents. *)
+Theorem C16_render_any_layout_tokens :
+  forall d s, safe_doc d = true -> words_ok d = true -> renders d s -> lex_string s = Some (tokens d).
+Proof. exact render_any_layout_tokens. Qed.
+Print Assumptions C16_render_any_layout_tokens.
+Theorem C16_print_is_safe :
+  forall c p, wf_prog p = true -> safe_doc (d_prog c p) = true /\ words_ok (d_prog c p) = true.
+Proof. exact print_is_safe. Qed.
+Print Assumptions C16_print_is_safe.
 
 (* Full strength: for every configuration and every parser-shaped program, parsing the printed
    program yields the same tree.  This is FALSE of the faithful model (and of the implementation):
@@ -51,3 +71,16 @@ Theorem C16_idempotent_refuted :
                    tokens (d_prog c q) = tokens (d_prog c p)).
 Proof. exact idempotent_refuted. Qed.
 Print Assumptions C16_idempotent_refuted.
+
+(* The property on text: formatting at any width and indentation (indeed any layout) and parsing the
+   result yields the same tree; formatting that again with any configuration yields the same document. *)
+Theorem C16_roundtrip_text_guarded :
+  forall c p s, wf_prog p = true -> zsafe_prog p = true -> renders (d_prog c p) s -> parse_text s = Some p.
+Proof. exact roundtrip_text_guarded. Qed.
+Print Assumptions C16_roundtrip_text_guarded.
+
+Theorem C16_idempotent_text_guarded :
+  forall c c2 p s, wf_prog p = true -> zsafe_prog p = true -> renders (d_prog c p) s ->
+    option_map (d_prog c2) (parse_text s) = Some (d_prog c2 p).
+Proof. exact idempotent_text_guarded. Qed.
+Print Assumptions C16_idempotent_text_guarded.
